@@ -2,6 +2,7 @@ import AdfObdd.OpsProofs
 import AdfObdd.WfCheck
 import AdfObdd.Rebuild
 import AdfObdd.Bridge
+import AdfObdd.WfCheckFast
 /-! # C06 — the diagram store stays canonical: same handle iff same Boolean function
 
 Reachable states are the results of `runOps` on the fresh store (any operation sequence, so any
@@ -91,3 +92,58 @@ example : WF Store.init ∧ DumpOK [⟨VBOT, 0, 0⟩, ⟨VTOP, 1, 1⟩, ⟨0, 0,
   refine ⟨by simp [VBOT], by simp, by simp, ?_, ?_⟩ <;> intro m h2 <;> simp at h2
 
 end C06
+
+/-! ## the linear-time checker for large dumped tables
+
+`wfCheck` tests for duplicate nodes by comparing all pairs, which is too slow for dumped real
+tables with 100 000+ nodes. `wfCheckFast` (`WfCheckFast.lean`) makes one pass with a hash set of
+the nodes seen so far; it is sound, complete, and the same function as `wfCheck`. -/
+namespace C06
+
+/-- the fast checker is sound: if it says yes the table is reduced, ordered and duplicate free -/
+theorem fast_checker_sound (ns : Array Node) (h : wfCheckFast ns = true) : TableWF ns :=
+  wfCheckFast_sound ns h
+
+/-- … and complete: it raises no false alarm on a well-formed table -/
+theorem fast_checker_complete (ns : Array Node) (h : TableWF ns) : wfCheckFast ns = true :=
+  wfCheckFast_complete ns h
+
+/-- the quadratic checker is complete as well, so both compute the same verdict on every table -/
+theorem fast_checker_eq (ns : Array Node) : wfCheckFast ns = wfCheck ns := wfCheckFast_eq_wfCheck ns
+
+/-- a table that passes the fast checker is canonical -/
+theorem fast_checked_table_canonical (s : Store) (h : wfCheckFast s.nodes = true) (a b : Nat)
+    (ha : a < s.nodes.size) (hb : b < s.nodes.size) :
+    (∀ σ, eval s a σ = eval s b σ) ↔ a = b := canonical_of_fast_check s h a b ha hb
+
+/-- every node table the model can reach passes the fast checker (so a `false` on a dumped real
+table is a difference from every model state, not an artefact of the checker) -/
+theorem reachable_tables_pass_fast (ops : List Op) (hv : opsValid ops 2) :
+    wfCheckFast (runOps ops Store.init [0, 1]).1.nodes = true :=
+  wfCheckFast_complete _ (table_wf_reachable ops hv)
+
+/-- x1, x0 ∧ x1 and x0 → x1 as a node table -/
+def fastExample : Array Node := #[⟨VBOT, 0, 0⟩, ⟨VTOP, 1, 1⟩, ⟨1, 0, 1⟩, ⟨0, 0, 2⟩, ⟨0, 1, 2⟩]
+
+/-- non-vacuity: the fast checker says yes on this table — kernel-checked through
+`fast_checker_eq` (the hash set itself does not reduce in the kernel), and by evaluation -/
+theorem fastExample_passes : wfCheckFast fastExample = true := by
+  rw [fast_checker_eq]; decide
+#guard wfCheckFast fastExample
+
+example : TableWF fastExample := fast_checker_sound fastExample fastExample_passes
+
+/-- … and no on the same table with a duplicated node, with a redundant test, with a child above
+its parent, and without the ⊤ terminal -/
+example : wfCheckFast (fastExample.push ⟨0, 0, 2⟩) = false ∧ wfCheckFast (fastExample.push ⟨0, 2, 2⟩) = false ∧
+    wfCheckFast (fastExample.push ⟨1, 0, 3⟩) = false ∧ wfCheckFast #[⟨VBOT, 0, 0⟩] = false := by
+  simp only [fast_checker_eq]
+  refine ⟨?_, ?_, ?_, ?_⟩ <;> decide
+#guard !wfCheckFast (fastExample.push ⟨0, 0, 2⟩) && !wfCheckFast (fastExample.push ⟨0, 2, 2⟩) &&
+  !wfCheckFast (fastExample.push ⟨1, 0, 3⟩) && !wfCheckFast #[⟨VBOT, 0, 0⟩]
+
+end C06
+
+#print axioms C06.fast_checker_sound
+#print axioms C06.fast_checker_complete
+#print axioms C06.fast_checker_eq
